@@ -149,6 +149,15 @@ func runC12(ctx *report.Ctx) {
 		AfterEnd: after, AfterEndArgs: []int{0, 1, 7, -1},
 		StateKey: func(r *yc.Real, st variable.Storer) string { return dump.Values(r.DR, st) }}
 	ctx.Bound("calls_after_end", after)
+	// is <<stop word>> a stop on this tree? (The property speaks of <<stop>>; if a stop written with arguments
+	// reports the end, that end must be absorbing like any other; if it is refused instead, it is not generated.)
+	stopWithArgs := false
+	if r, err, pan := yc.NewReal([]string{"title: A\n---\n<<stop now>>\nafter\n===\n"}, "abc", nil); err == nil && pan == "" {
+		if ro := r.Next(0); ro.K == yc.OEnd {
+			stopWithArgs = true
+		}
+	}
+	ctx.Bound("stop_with_arguments_reports_the_end", stopWithArgs)
 	size := report.Pick(ctx, 3, 4)
 	ctx.Bound("E1", fmt.Sprintf("<=%d statements over 1..2 nodes, alphabet line/opts(1-2, bodies)/if/set/jump/stop/command/call/command completed by the host after one poll", size))
 	extra := map[string]func(g *progGen) *yc.Stmt{
@@ -169,7 +178,11 @@ func runC12(ctx *report.Ctx) {
 		},
 	}
 	part(ctx, "E1", -1, func(c *explore.Chooser) {
-		g := &progGen{c: c, rem: size, kinds: []string{"line", "opts", "if", "stop", "cmd", "setn", "jump", "call", "dcmd", "ccmd", "stopargs"}, maxDepth: 2, maxOpts: 2, maxCl: 1, conds: condsF[:2], extra: extra}
+		kinds := []string{"line", "opts", "if", "stop", "cmd", "setn", "jump", "call", "dcmd", "ccmd"}
+		if stopWithArgs {
+			kinds = append(kinds, "stopargs")
+		}
+		g := &progGen{c: c, rem: size, kinds: kinds, maxDepth: 2, maxOpts: 2, maxCl: 1, conds: condsF[:2], extra: extra}
 		p := g.program(report.Pick(ctx, 1, 2))
 		if !c.Mine() {
 			return
@@ -206,7 +219,11 @@ func runC12(ctx *report.Ctx) {
 					body = append(body, yc.If(&yc.Clause{Cond: yc.EBoolean(false), Body: eff()}, &yc.Clause{Body: shape(d - 1)}))
 				}
 			} else {
-				switch c.Choose(5, "tail") {
+				ntails := 3
+				if stopWithArgs {
+					ntails = 5
+				}
+				switch c.Choose(ntails, "tail") {
 				case 0:
 					body = append(body, yc.Stop())
 				case 3:
